@@ -32,7 +32,7 @@ def features(case, w):
                       ("GroupSize", "GroupIndex"), ("GroupSize", "GroupSize"), ("OnCompletion", "OnCompletion"),
                       ("RekeyTo", "RekeyTo"), ("TypeEnum", "OnCompletion"), ("GroupIndex", "GroupIndex")]
         a, b = from_pairs[d["pair"] - 1]
-        fs += ["field:" + a, "field:" + b, "join:" + d["join"], "neg:%d" % d["neg"], "cons:" + d["cons"],
+        fs += ["field:" + a, "field:" + b, "pair:%s+%s" % (a, b), "join:" + d["join"], "neg:%d" % d["neg"], "cons:" + d["cons"],
                "skel:%d" % d["skel"], "opA:" + d["a"]["op"], "opB:" + d["b"]["op"],
                "sideA:" + d["a"]["side"], "sideB:" + d["b"]["side"],
                "cmp:%s:%s" % (a, d["a"]["op"]), "cmp:%s:%s" % (b, d["b"]["op"]),
@@ -50,7 +50,7 @@ def features(case, w):
     return sorted(set(fs))
 
 
-def run_chunked(module, cfg, cases, tag, nchunks=None, workers=None):
+def run_chunked(module, cfg, cases, tag, nchunks=None, workers=None, fields=None):
     """Runs one TLC process per chunk of the corpus, concurrently: the per-program tables of a
     check module are evaluated single-threaded at TLC start-up, so processes scale where
     workers do not."""
@@ -61,9 +61,9 @@ def run_chunked(module, cfg, cases, tag, nchunks=None, workers=None):
     chunks = [cases[i::nchunks] for i in range(nchunks)]
 
     def one(i):
-        fields = ("pid", "prog", "obs") + (("feas",) if "feas" in chunks[i][0] else ())
+        flds = fields or (("pid", "prog", "obs") + (("feas",) if "feas" in chunks[i][0] else ()))
         path = write_obs_file(chunks[i], os.path.join(fw.OUT, "work", "%s-%d-%d.json" % (tag, os.getpid(), i)),
-                              fields=fields)
+                              fields=flds)
         try:
             res = run_tlc(module, cfg, env={"OBS_FILE": path, "JAVA_TOOL_OPTIONS": "-Xmx4g"},
                           workers=workers, timeout=6 * 3600)
